@@ -31,6 +31,12 @@ pub enum Op {
     Map(u8),
     /// 0..=8 = (lhs form, rhs form) in {owned, &, &mut}^2 (lhs*3+rhs), 9 = boxed x boxed; element kinds of lhs and rhs
     Zip(u8, K3, K3),
+    /// the same with the closure's output element kind as a third dimension (U32 = plain, Zst here = the unit type `()`)
+    ZipOut(u8, K3, K3, K3),
+    /// `dst.clone_from(&src)` for arrays (0), boxed arrays (1): T::clone panics at call k
+    CloneFromArr(u8),
+    /// `dst.clone_from(&src)` for by-value iterators: source at (front, back), destination at (front2, back2)
+    CloneFromIter(usize, usize, usize, usize),
     Fold(u8),
     IterFold(usize, usize),
     IterRFold(usize, usize),
@@ -67,6 +73,10 @@ struct Outcome {
 }
 
 fn zip_run<A: Elem + Peek, B: Elem + Peek, N: ArrayLength>(form: u8, k: Option<u64>) {
+    zip_run_out::<A, B, Tracked, N>(form, k)
+}
+
+fn zip_run_out<A: Elem + Peek, B: Elem + Peek, O: Elem, N: ArrayLength>(form: u8, k: Option<u64>) {
     let mut a: GenericArray<A, N> = GenericArray::generate(|i| A::mk(100 + i as u32));
     let mut b: GenericArray<B, N> = GenericArray::generate(|i| B::mk(200 + i as u32));
     if let Some(k) = k {
@@ -78,7 +88,7 @@ fn zip_run<A: Elem + Peek, B: Elem + Peek, N: ArrayLength>(form: u8, k: Option<u
                 registry::tick("zip closure");
                 let v = mix2(pk(&l), pk(&r));
                 drop((l, r));
-                Tracked::mk(v)
+                O::mk(v)
             }))
         };
     }
@@ -88,7 +98,7 @@ fn zip_run<A: Elem + Peek, B: Elem + Peek, N: ArrayLength>(form: u8, k: Option<u
                 registry::tick("inverted_zip closure");
                 let v = mix2(pk(&l), pk(&r));
                 drop((l, r));
-                Tracked::mk(v)
+                O::mk(v)
             }))
         };
     }
@@ -98,7 +108,7 @@ fn zip_run<A: Elem + Peek, B: Elem + Peek, N: ArrayLength>(form: u8, k: Option<u
                 registry::tick("inverted_zip2 closure");
                 let v = mix2(pk(&l), pk(&r));
                 drop((l, r));
-                Tracked::mk(v)
+                O::mk(v)
             }))
         };
     }
@@ -173,7 +183,7 @@ fn run_op<T: Elem + Peek + Clone + Default, N: ArrayLength>(case: &Case) {
                 })),
             }
         }
-        Op::Zip(..) => unreachable!(),
+        Op::Zip(..) | Op::ZipOut(..) => unreachable!(),
         Op::Fold(f) => {
             let mut a: GenericArray<T, N> = GenericArray::generate(|i| T::mk(100 + i as u32));
             arm();
@@ -237,6 +247,43 @@ fn run_op<T: Elem + Peek + Clone + Default, N: ArrayLength>(case: &Case) {
                     drop(c);
                 }
             }
+            drop(held);
+        }
+        Op::CloneFromArr(f) => {
+            let src: GenericArray<T, N> = GenericArray::generate(|i| T::mk(100 + i as u32));
+            let mut dst: GenericArray<T, N> = GenericArray::generate(|i| T::mk(300 + i as u32));
+            if f == 0 {
+                arm();
+                dst.clone_from(&src);
+                drop(dst);
+                drop(src);
+            } else {
+                let (src, mut dst) = (Box::new(src), Box::new(dst));
+                arm();
+                dst.clone_from(&src);
+                drop(src);
+                drop(dst);
+            }
+        }
+        Op::CloneFromIter(front, back, f2, b2) => {
+            let mut held = vec![];
+            let mut mk = |base: u32, f: usize, b: usize, held: &mut Vec<T>| {
+                let a: GenericArray<T, N> = GenericArray::generate(|i| T::mk(base + i as u32));
+                let mut it = a.into_iter();
+                for _ in 0..f.min(n) {
+                    held.extend(it.next());
+                }
+                for _ in 0..b.min(n - f.min(n)) {
+                    held.extend(it.next_back());
+                }
+                it
+            };
+            let src = mk(100, front, back, &mut held);
+            let mut dst = mk(300, f2, b2, &mut held);
+            arm();
+            dst.clone_from(&src);
+            drop(src);
+            drop(dst);
             drop(held);
         }
         Op::CloneArr => {
@@ -355,6 +402,16 @@ fn run_typed<N: ArrayLength>(case: &Case) {
             (K3::Zst, K3::Tracked) => zip_run::<TrackedZst, Tracked, N>(form, case.k),
             _ => zip_run::<u32, u32, N>(form, case.k),
         },
+        Op::ZipOut(form, lk, rk, ok) => match (lk, rk, ok) {
+            (K3::Tracked, K3::U32, K3::U32) => zip_run_out::<Tracked, u32, u32, N>(form, case.k),
+            (K3::Tracked, K3::U32, _) => zip_run_out::<Tracked, u32, (), N>(form, case.k),
+            (K3::U32, K3::Tracked, K3::U32) => zip_run_out::<u32, Tracked, u32, N>(form, case.k),
+            (K3::U32, K3::Tracked, _) => zip_run_out::<u32, Tracked, (), N>(form, case.k),
+            (K3::Tracked, K3::Tracked, K3::U32) => zip_run_out::<Tracked, Tracked, u32, N>(form, case.k),
+            (K3::Tracked, K3::Tracked, _) => zip_run_out::<Tracked, Tracked, (), N>(form, case.k),
+            (K3::Tracked, K3::Zst, _) => zip_run_out::<Tracked, TrackedZst, (), N>(form, case.k),
+            _ => zip_run_out::<TrackedZst, Tracked, u32, N>(form, case.k),
+        },
         _ => {
             if case.zst {
                 run_op::<TrackedZst, N>(case)
@@ -369,6 +426,7 @@ fn run(case: &Case) -> Result<Outcome, String> {
     registry::reset();
     let r = engine::catch(|| match case.op {
         Op::Zip(..) => len_match!(case.n, N, run_typed::<N>(case), [0: U0, 1: U1, 2: U2, 3: U3, 4: U4, 5: U5, 6: U6, 8: U8, 16: U16, 33: U33]),
+        Op::ZipOut(..) => len_match!(case.n, N, run_typed::<N>(case), [0: U0, 1: U1, 2: U2, 3: U3, 5: U5, 8: U8, 33: U33]),
         _ => len_match!(case.n, N, run_typed::<N>(case), [0: U0, 1: U1, 2: U2, 3: U3, 4: U4, 5: U5, 6: U6, 7: U7, 8: U8, 12: U12, 16: U16, 33: U33, 64: U64, 256: U256, 1024: U1024]),
     });
     let fired = registry::call_panic_fired();
@@ -423,7 +481,7 @@ fn instances(thorough: bool) -> Vec<Case> {
                 ops.push(Op::Map(f));
                 ops.push(Op::Fold(f));
             }
-            ops.extend([Op::CloneArr, Op::CloneBox, Op::Default, Op::DefaultBoxed]);
+            ops.extend([Op::CloneArr, Op::CloneBox, Op::Default, Op::DefaultBoxed, Op::CloneFromArr(0), Op::CloneFromArr(1)]);
             let positions: Vec<(usize, usize)> = if n <= 8 {
                 (0..=n).flat_map(|f| (0..=(n - f)).map(move |b| (f, b))).collect()
             } else {
@@ -435,6 +493,12 @@ fn instances(thorough: bool) -> Vec<Case> {
                 ops.push(Op::CloneIter(f, b));
                 if f + b <= 2 {
                     ops.push(Op::IterMapCollect(f, b));
+                }
+                // clone_from into destinations in a few positions (fresh, front-consumed, back-consumed, exhausted)
+                for (f2, b2) in [(0usize, 0usize), (1, 0), (0, 1), (n / 2, 0), (n, 0), (1, 1)] {
+                    if n <= 8 || (f + b) % 2 == 0 {
+                        ops.push(Op::CloneFromIter(f, b, f2, b2));
+                    }
                 }
             }
             for target in 0..4u8 {
@@ -459,6 +523,12 @@ fn instances(thorough: bool) -> Vec<Case> {
             for form in 0..18u8 {
                 for (lk, rk) in [(K3::Tracked, K3::Tracked), (K3::Tracked, K3::U32), (K3::U32, K3::Tracked), (K3::Tracked, K3::Zst), (K3::Zst, K3::Tracked), (K3::U32, K3::U32)] {
                     out.push(Case { op: Op::Zip(form, lk, rk), n, zst: false, k: None });
+                }
+                if [0usize, 1, 2, 3, 5, 8, 33].contains(&n) {
+                    for (lk, rk, ok) in [(K3::Tracked, K3::U32, K3::U32), (K3::Tracked, K3::U32, K3::Zst), (K3::U32, K3::Tracked, K3::U32), (K3::U32, K3::Tracked, K3::Zst),
+                                         (K3::Tracked, K3::Tracked, K3::U32), (K3::Tracked, K3::Tracked, K3::Zst), (K3::Tracked, K3::Zst, K3::Zst), (K3::Zst, K3::Tracked, K3::U32)] {
+                        out.push(Case { op: Op::ZipOut(form, lk, rk, ok), n, zst: false, k: None });
+                    }
                 }
             }
         }
@@ -527,7 +597,7 @@ pub fn main() {
             prop: PROP,
             level: "fault_enumeration",
             rule: "operation instance = (operation and receiver/argument form, N, element kind); for each instance a clean run counts the K invocations of caller code (closure, Clone::clone, Default::default, source next()), then the instance is re-run once per crash point k in 0..K with a panic injected at exactly that invocation (every k for K <= 80, else first/last/middle + a seeded spread). \
-                   Operations: generate x4 forms, map x4, zip x10 forms plus 8 direct inverted_zip / inverted_zip2 call forms x 6 element-kind pairs (drop-tracked / plain / zero-sized, selecting the needs_drop branches), fold x4, iterator fold/rfold/map-collect/Clone from every (front, back) for N<=8, Clone for GenericArray and Box<GenericArray>, Default, default_boxed, collect x4 targets x 3 produced counts x 3 hints from a scripted source that panics in next(), and the internals builders/consumer abandoned at every position. \
+                   Operations: generate x4 forms, map x4, zip x10 forms plus 8 direct inverted_zip / inverted_zip2 call forms x 6 element-kind pairs (drop-tracked / plain / zero-sized, selecting the needs_drop branches) with a drop-tracked output, and x 8 (lhs, rhs, output) kind triples with a plain or unit output, fold x4, clone_from for arrays, boxed arrays and by-value iterators (source and destination in several positions), iterator fold/rfold/map-collect/Clone from every (front, back) for N<=8, Clone for GenericArray and Box<GenericArray>, Default, default_boxed, collect x4 targets x 3 produced counts x 3 hints from a scripted source that panics in next(), and the internals builders/consumer abandoned at every position. \
                    Oracle: the panic propagates with the injected payload, and once every local is gone each element ever created (inputs, partial outputs, values handed to the closure, clones) has been dropped exactly once, none as garbage. \
                    non-trivial = the injected panic fired with 0 < k < K-1 (a built prefix and an unconsumed suffix both exist); distinct = distinct (instance, k)",
             exhaustive: false,
